@@ -258,9 +258,18 @@ def _acc_scope_delegates(fn, sites):
   return out
 
 
-def _notify_kind(fn):
-  """flag / skip / none for one method body."""
+def _notify_kind(fn, cls=None):
+  """flag / skip / none for one method body. A method that hands its updates to a private helper
+  of the same class (`self._notify_<something>(...)`, e.g. `List._notify_moved_items`) has the kind
+  of that helper."""
   src_calls = [n for n in ast.walk(fn) if _is_call_attr(n, '_notify_field_updates')]
+  if not src_calls and cls is not None:
+    for n in ast.walk(fn):
+      if (isinstance(n, ast.Call) and isinstance(n.func, ast.Attribute) and _is_name(n.func.value, 'self')
+          and n.func.attr.startswith('_notify_') and n.func.attr != '_notify_field_updates'):
+        helper = common.find_func_opt(cls, n.func.attr)
+        if helper is not None and helper is not fn:
+          return _notify_kind(helper, None)
   if src_calls:
     # every notify call must sit under an `if` whose test mentions is_change_notification_enabled()
     ok = True
@@ -283,7 +292,7 @@ def _notify_kind(fn):
   return 'none'
 
 
-def analyse_method(cls_name, fn, mutators):
+def analyse_method(cls_name, fn, mutators, cls=None):
   sites = Sites(cls_name, mutators)
   body = [s for s in fn.body if not (isinstance(s, ast.Expr) and isinstance(s.value, ast.Constant))]
   all_raw, all_dele = [], []
@@ -303,7 +312,7 @@ def analyse_method(cls_name, fn, mutators):
       'delegates': sorted({d for d, _ in all_dele}),
       'precheck': False,
       'accScope': bool(acc_deleg) and {d for d, _ in acc_deleg} == {d for d, _ in all_dele},
-      'notify': _notify_kind(fn),
+      'notify': _notify_kind(fn, cls),
       'line': fn.lineno,
       'raw_sites': all_raw, 'delegate_sites': all_dele,
   }
@@ -497,7 +506,7 @@ def run():
         # object.__setattr__/__delattr__ cannot reach symbolic attributes.
         rec['baseMutates'] = m in builtin_muts
       else:
-        rec = analyse_method(cname, fn, builtin_muts)
+        rec = analyse_method(cname, fn, builtin_muts, cls)
       table[EP[(cname, m)]] = rec
     table[EP[(cname, 'rebind')]] = analyse_rebind_chain(btree, cname, cls)
   table['tree_set'] = analyse_tree_set(btree)
